@@ -54,6 +54,12 @@ fn out1<T: Hash>(params: String, pend: u32, d: &DownRef<T>) -> CaseOut {
     let d = d.borrow();
     CaseOut { params, observed: hash_of(&(&d.items, pend, d.polls_after_final)), diff: None }
 }
+fn out1_sorted<T: Hash + Ord + Clone>(params: String, pend: u32, d: &DownRef<T>) -> CaseOut {
+    let d = d.borrow();
+    let mut items = d.items.clone();
+    items.sort();
+    CaseOut { params, observed: hash_of(&(&items, pend, d.polls_after_final)), diff: None }
+}
 fn out2<T: Hash, U: Hash>(params: String, pend: u32, d0: &DownRef<T>, d1: &DownRef<U>) -> CaseOut {
     let (d0, d1) = (d0.borrow(), d1.borrow());
     CaseOut { params, observed: hash_of(&(&d0.items, &d1.items, pend, d0.polls_after_final, d1.polls_after_final)), diff: None }
@@ -260,7 +266,7 @@ fn p_fold_keyed(cx: &Cx) -> CaseOut {
     if got != want {
         cx.env.fault("state", format!("map is {got:?}, expected {want:?}"));
     }
-    out1(format!("prefilled={prefilled}"), pend, &d)
+    out1_sorted(format!("prefilled={prefilled}"), pend, &d)
 }
 
 fn p_reduce_keyed(cx: &Cx) -> CaseOut {
@@ -285,7 +291,7 @@ fn p_reduce_keyed(cx: &Cx) -> CaseOut {
     };
     let want: Vec<(u8, u32)> = model.iter().map(|(k, v)| (*k, *v)).collect();
     expect_down(cx, &d, &want, Order::Multiset);
-    out1(format!("prefilled={prefilled}"), pend, &d)
+    out1_sorted(format!("prefilled={prefilled}"), pend, &d)
 }
 
 fn p_persist(cx: &Cx) -> CaseOut {
